@@ -17,9 +17,6 @@ def Unit3 (m : Iso3 K) : Prop := m.qi * m.qi + m.qj * m.qj + m.qk * m.qk + m.qw 
 /-- `|z|² = 1` for the rotation part of a 2-D isometry -/
 def Unit2 (m : Iso2 K) : Prop := m.re * m.re + m.im * m.im = 1
 
-theorem V3.ext' {a b : V3 K} (hx : a.x = b.x) (hy : a.y = b.y) (hz : a.z = b.z) : a = b := by
-  cases a; cases b; simp_all
-
 /-! ## `rotQ`: linearity -/
 
 theorem rotQ_add (u : V3 K) (w : K) (a b : V3 K) :
@@ -210,5 +207,19 @@ theorem V3.neg_sub' (a b : V3 K) :
     (a.sub b).neg = b.sub a := by
   simp only [V3.sub, V3.neg, V3.mk.injEq]
   refine ⟨?_, ?_, ?_⟩ <;> ring
+
+/-- `m · (m⁻¹ · p) = p` for `inverse_transform_point` -/
+theorem iso3_invAct_act' (m : Iso3 K) (p : V3 K) (h : Unit3 m) :
+    letI := fieldNum K sq
+    m.act (m.invAct p) = p := by
+  have e := rot_invRot sq m (V3.mk (p.x - m.t.x) (p.y - m.t.y) (p.z - m.t.z)) h
+  obtain ⟨i, j, k, w, tx, ty, tz⟩ := m; obtain ⟨x, y, z⟩ := p
+  simp only [Iso3.invAct, Iso3.invRot, Iso3.act, Iso3.rot, Iso3.qv, Iso3.rotQ, V3.add, V3.sub, V3.neg,
+    V3.smul, V3.cross, fieldNum_two, V3.mk.injEq] at e ⊢
+  obtain ⟨b1, b2, b3⟩ := e
+  refine ⟨?_, ?_, ?_⟩
+  · linear_combination b1
+  · linear_combination b2
+  · linear_combination b3
 
 end C03
